@@ -195,3 +195,24 @@ Lemma late_registration_drops (k : key) r :
   key_of r = Some k -> m_is_request r = false ->
   fst (step ([], 1000) (Recv r)) = ([], 1001) /\ snd (step ([], 1000) (Recv r)) = Some Orphan.
 Proof. intros Hk Hr. cbn [step]. unfold receive. rewrite Hk. cbn [lookup]. rewrite Hr. split; reflexivity. Qed.
+
+
+(* a CANCEL that names the pending INVITE (same top Via branch, same CSeq number) finds it, whatever the style of the branch *)
+Lemma cancel_finds_invite inv c :
+  cancel_lookup_by_tsx_branch = true -> m_is_request inv = true -> m_is_request c = true ->
+  m_branch c = m_branch inv -> m_cseq c = m_cseq inv -> m_from_tag c = m_from_tag inv ->
+  cancellable_reg inv <> None -> cancellable_lookup c = cancellable_reg inv.
+Proof.
+  intros G Hi Hc Hb Hs Hf Hn. unfold cancellable_lookup, cancellable_reg in *. rewrite G. unfold key_of in *.
+  rewrite Hb, Hs, Hf, Hi, Hc. destruct (has_cookie (m_branch inv)); [reflexivity|].
+  destruct (m_from_tag inv); [reflexivity | now elim Hn].
+Qed.
+
+(* looked up under the raw Via branch, the INVITE of a caller without the magic cookie is not found *)
+Lemma raw_branch_lookup_misses inv :
+  has_cookie (m_branch inv) = false -> m_branch inv <> [] -> m_from_tag inv <> None ->
+  cancellable_reg inv <> Some (m_cseq inv, m_branch inv).
+Proof.
+  intros Hc Hb Hf. unfold cancellable_reg, key_of. rewrite Hc. destruct (m_from_tag inv); [|now elim Hf].
+  cbn [key_branch]. intros E. injection E as E. now elim Hb.
+Qed.
